@@ -116,11 +116,20 @@ func registerCompiledRoute(router *server.Router, route *ast.Route, bytecode []b
 	return router.RegisterRoute(serverRoute)
 }
 
+// maxCompiledRouteSteps bounds the instructions one compiled route execution may
+// run. The interpreter stops a loop after one million iterations; a loop
+// iteration costs a handful of instructions, so this allows at least as much.
+const maxCompiledRouteSteps = 50_000_000
+
 // createCompiledRouteHandler creates an HTTP handler that executes compiled bytecode
 func createCompiledRouteHandler(route *ast.Route, bytecode []byte, wsHub *websocket.Hub) server.RouteHandler {
 	return func(ctx *server.Context) error {
 		// Create VM instance
 		vmInstance := vm.NewVM()
+		// A route body that never terminates (while true {}) must end in an
+		// error, as it does in the interpreter, instead of occupying the
+		// connection and a CPU forever.
+		vmInstance.SetMaxSteps(maxCompiledRouteSteps)
 
 		// Set up WebSocket stats handler if hub is available
 		if wsHub != nil {
